@@ -207,10 +207,15 @@ func TestC09(t *testing.T) {
 	m := mon.New(t, "C09")
 	defer m.Done()
 	path := xorPathName()
-	m.Rule("stream xor: case = (key, 16-byte counter block, length, buffer layout); starting block counters by i%8: {carry 2^32 forced inside a 256-byte asm stride, forced in the <256-byte tail, the same two with high word 0xffffffff (wrap at 2^64), 0, the quantifier's starts 2^32-3..2^32+1 and 2^64-3..2^64-1, random, low word within 40 of wrapping}; lengths 0..2600 dense at 64k±1 and 256k±1; each case runs salsa.XORKeyStream (asm, or portable in the purego variant) with in/out placed against PROT_NONE pages (in==out and disjoint, start- and end-aligned, out longer than in) and salsa.VerifGenericXORKeyStream; stream salsa20: salsa20.XORKeyStream with 8- and 24-byte nonces; streams hsalsa20/core208: random and structured blocks, aliased and not. Oracle: executable Salsa20 specification (verif/ref/salsa), witness libsodium. Distinct = (path, counter class, wrapping block index, stride/tail, length class, layout). Non-trivial = output compared byte-for-byte with the spec.")
+	m.Rule("stream xor: case = (key, 16-byte counter block, length, buffer layout); starting block counters by i%8: {carry 2^32 forced inside a 256-byte asm stride, forced in the <256-byte tail, the same two with high word 0xffffffff (wrap at 2^64), 0, the quantifier's starts 2^32-3..2^32+1 and 2^64-3..2^64-1, random, low word within 40 of wrapping}; lengths 0..2600 dense at 64k±1 and 256k±1; each case runs salsa.XORKeyStream (asm, or portable in the purego variant) with in/out placed against PROT_NONE pages (in==out and disjoint, start- and end-aligned, out longer than in) and salsa.VerifGenericXORKeyStream; stream salsa20: salsa20.XORKeyStream with 8- and 24-byte nonces; streams hsalsa20/core208: random and structured blocks, aliased and not. Oracle: executable Salsa20 specification (verif/ref/salsa), witness libsodium. Distinct = (path, counter class, wrapping block index, stride/tail, length class, layout). Non-trivial = output compared byte-for-byte with the spec." + concRule)
 	m.Assume("verif/ref/salsa transcribes the Salsa20 specification (quarter-round form) and passes the specification's own examples, ECRYPT set 1/6, the NaCl-paper HSalsa20/XSalsa20 values and RFC 7914's Salsa20/8 vector; the block counter is the little-endian 64-bit integer at bytes 8..15, incremented mod 2^64 (libsodium 1.0.18 agrees, also across the 2^64 wrap)")
 	m.Note("salsa20.XORKeyStream always starts at block 0, so a low→high counter carry through that entry point needs a 256 GiB input: not exercised (the carry is exercised on salsa.XORKeyStream, which it calls)")
 	m.Note("variant=" + path)
+	if mon.RaceBuild { // race variant: only the shared-value concurrency stream
+		concC09(m)
+		return
+	}
+	concC09(m)
 	ar := newArenas()
 	defer ar.free()
 
